@@ -128,7 +128,7 @@ static uintptr_t nondet_cw(void) { switch (VF_nondet_u8() & 3) { case 0: return 
 static uintptr_t nondet_wc(void) { switch (VF_nondet_u8() & 3) { case 0: return 0; case 1: return CU; default: return CL; } }
 static struct proto any_proto(void) {
   struct proto p;
-  p.cw = nondet_cw(); p.wc = nondet_wc(); p.st = VF_nondet_u8(); p.cp = VF_nondet_u8(); p.wp = VF_nondet_u8(); p.gh = VF_nondet_bool();
+  p.cw = nondet_cw(); p.wc = nondet_wc(); p.st = VF_nondet_u8(); p.cp = VF_nondet_u8(); p.wp = VF_nondet_u8(); p.gh = VF_nondet_bool() ? 1 : 0;
   return p;
 }
 static void vf_interfere(void) {
